@@ -18,7 +18,9 @@ TECHNIQUE = "bounded-exhaustive (pattern tree x sequence) enumeration + DFA x de
 
 LEVEL_TEXT = ("Every pattern tree up to the size bound and every sequence up to the length bound is executed on the real "
               "matcher and compared with an independent derivative semantics; per pattern the real DFA is additionally proven "
-              "language-equivalent to the reference for sequences of every length by exhaustive product-state reachability. "
+              "language-equivalent to the reference for sequences of every length by exhaustive product-state reachability; every ordered "
+              "pair of small patterns is additionally run in one fresh process (first used, second checked) so that state kept between "
+              "patterns cannot hide. "
               "Exhaustive within the bounds, nothing sampled.")
 LEVEL_NOTE = ("Trusted: the Brzozowski-derivative reference (mc/refs/regex.py). Bounds: pattern size and atom alphabet as "
               "recorded in the evidence; predicates are stateless Identity atoms (stateful predicates are C14/C15).")
